@@ -100,6 +100,18 @@ Fixpoint ends_block (s : stmt) : bool :=
   | _ => false
   end.
 
+(* the code of the statement starts with a Goto (LEAVE / ITERATE, or the back-jump of a LOOP with an empty body).  An
+   ITERATE that is the very first operation of its LOOP has counter = Index: execOp takes the forward branch, walks
+   nothing and the interpreter simply continues with the next operation instead of restarting the loop *)
+Fixpoint starts_goto (s : stmt) : bool :=
+  match s with
+  | SLeave _ | SIterate _ => true
+  | SSeq a b => if clen a =? 0 then starts_goto b else starts_goto a
+  | SRepeat _ b _ => if clen b =? 0 then false else starts_goto b
+  | SLoop _ b => if clen b =? 0 then true else starts_goto b
+  | _ => false
+  end.
+
 (* [it] / [lv]: labels ITERATE / LEAVE may name here (enclosing WHILE and LOOP; enclosing REPEAT for LEAVE only) *)
 Fixpoint ok (it lv : list label) (s : stmt) : bool :=
   match s with
@@ -109,8 +121,8 @@ Fixpoint ok (it lv : list label) (s : stmt) : bool :=
   | SBlock l body => N.eqb l 0 && ok it lv body
   | SIf _ th el => ok it lv th && ok it lv el && negb (ends_block el)
   | SWhile l _ body => ok (addl l it) (addl l lv) body
-  | SRepeat l body c => total c && ok it (addl l lv) body
-  | SLoop l body => (0 <? clen body) && ok (addl l it) (addl l lv) body
+  | SRepeat l body c => total c && negb (memL l it) && ok it (addl l lv) body
+  | SLoop l body => (0 <? clen body) && negb (starts_goto body) && ok (addl l it) (addl l lv) body
   | SLeave l => memL l lv
   | SIterate l => memL l it
   end.
@@ -338,4 +350,721 @@ Proof.
     rewrite removelast_app_ne by discriminate. rewrite eff_fwd_app. cbn [removelast eff_fwd fold_left].
     change (eff_fwd (compile' (bind l (base + clen s, base + clen s + 1 + clen s + 1) env) (base + clen s + 1) s) st = st). apply balanced_fwd.
   - rewrite removelast_app_ne by discriminate. rewrite eff_fwd_app, balanced_fwd. reflexivity.
+Qed.
+
+Lemma starts_goto_first : forall s env base t i rest,
+  starts_goto s = false -> compile' env base s <> OpGoto t i :: rest.
+Proof.
+  induction s; intros env base t i rest Hs; cbn [compile' starts_goto] in *; try discriminate.
+  - destruct (clen s1 =? 0) eqn:E.
+    + apply Z.eqb_eq in E. rewrite (clen_zero_nil s1 _ _ E). cbn [app]. apply IHs2. exact Hs.
+    + apply Z.eqb_neq in E. pose proof (clen_pos_ne s1 env base E) as Hne.
+      destruct (compile' env base s1) as [|x ca] eqn:Ec; [contradiction|].
+      cbn [app]. intros Heq. injection Heq as -> _. exact (IHs1 env base t i ca Hs Ec).
+  - destruct (clen s =? 0) eqn:E.
+    + apply Z.eqb_eq in E. rewrite (clen_zero_nil s _ _ E). cbn [app]. discriminate.
+    + apply Z.eqb_neq in E.
+      pose proof (clen_pos_ne s (bind l (base + clen s, base + clen s + 1 + clen s + 1) env) base E) as Hne.
+      destruct (compile' (bind l (base + clen s, base + clen s + 1 + clen s + 1) env) base s) as [|x ca] eqn:Ec; [contradiction|].
+      cbn [app]. intros Heq. injection Heq as -> _. exact (IHs _ base t i ca Hs Ec).
+  - destruct (clen s =? 0) eqn:E; [discriminate|].
+    apply Z.eqb_neq in E.
+    pose proof (clen_pos_ne s (bind l (base, base + clen s + 1) env) base E) as Hne.
+    destruct (compile' (bind l (base, base + clen s + 1) env) base s) as [|x ca] eqn:Ec; [contradiction|].
+    cbn [app]. intros Heq. injection Heq as -> _. exact (IHs _ base t i ca Hs Ec).
+Qed.
+
+(* ---------- facts about the definition ---------- *)
+Lemma total_nonnull : forall c st v, total c = true -> eval st c = Some v -> v <> None.
+Proof.
+  induction c; intros st v Ht Hv; cbn [total eval] in *; try discriminate.
+  - injection Hv as <-. discriminate.
+  - apply andb_prop in Ht. destruct Ht as [H1 H2].
+    destruct (eval st c1) as [x|] eqn:E1; [|discriminate]. destruct (eval st c2) as [y|] eqn:E2; [|discriminate].
+    injection Hv as <-. pose proof (IHc1 st x H1 E1). pose proof (IHc2 st y H2 E2).
+    destruct x as [x|]; [|contradiction]. destruct y as [y|]; [|contradiction]. destruct o; discriminate.
+  - destruct (eval st c) as [[z|]|] eqn:E; try discriminate.
+    + injection Hv as <-. discriminate.
+    + exfalso. exact (IHc st None Ht E eq_refl).
+  - destruct (eval st c) as [[z|]|]; try discriminate; injection Hv as <-; discriminate.
+Qed.
+
+Lemma truthy_b2v : forall b, truthy (b2v b) = b.
+Proof. destruct b; reflexivity. Qed.
+
+Lemma memL_addl_other : forall l l' ls, lbl_match l l' = false -> memL l' (addl l ls) = memL l' ls.
+Proof.
+  intros l l' ls H. unfold addl. destruct (N.eqb l 0) eqn:E0; [reflexivity|].
+  cbn [memL existsb]. unfold lbl_match in H. rewrite E0 in H. cbn in H. rewrite N.eqb_sym, H. reflexivity.
+Qed.
+
+(* the labels an outcome carries are labels the guard allows at that place *)
+Lemma outcome_labels : forall f s it lv st o st', ok it lv s = true -> exec f s st = (o, st') ->
+  match o with OIter l => memL l it = true | OLeave l => memL l lv = true | _ => True end.
+Proof.
+  induction f as [|f IH]; intros s it lv st o st' Hok Hex; [cbn in Hex; injection Hex as <- <-; exact I|].
+  destruct s; cbn [exec] in Hex; cbn [ok] in Hok; try discriminate Hok.
+  - injection Hex as <- <-. exact I.
+  - apply andb_prop in Hok. destruct Hok as [H1 H2]. destruct (exec f s1 st) as [oa st1] eqn:Ea.
+    pose proof (IH _ _ _ _ _ _ H1 Ea) as Pa.
+    destruct oa; try (injection Hex as <- <-; exact Pa). exact (IH _ _ _ _ _ _ H2 Hex).
+  - injection Hex as <- <-. exact I.
+  - destruct (eval st e); [destruct (set_var st x v)|]; injection Hex as <- <-; exact I.
+  - destruct (eval st e); injection Hex as <- <-; exact I.
+  - apply andb_prop in Hok. destruct Hok as [Hl Hb]. apply N.eqb_eq in Hl. subst l.
+    destruct (exec f s (push_scope st)) as [ob st1] eqn:Eb. pose proof (IH _ _ _ _ _ _ Hb Eb) as Pb.
+    destruct ob; try (injection Hex as <- <-; exact Pb).
+    destruct (depth =? depth_of (push_scope st)); injection Hex as <- <-; exact I.
+  - apply andb_prop in Hok. destruct Hok as [Hok _]. apply andb_prop in Hok. destruct Hok as [H1 H2].
+    destruct (eval st c) as [v|]; [|injection Hex as <- <-; exact I].
+    destruct (truthy v); [exact (IH _ _ _ _ _ _ H1 Hex) | exact (IH _ _ _ _ _ _ H2 Hex)].
+  - (* SWhile *)
+    destruct (eval st c) as [v|]; [|injection Hex as <- <-; exact I].
+    destruct (truthy v); [|injection Hex as <- <-; exact I].
+    destruct (exec f s st) as [ob st1] eqn:Eb. pose proof (IH _ _ _ _ _ _ Hok Eb) as Pb.
+    assert (Hw : ok it lv (SWhile l c s) = true) by exact Hok.
+    destruct ob; try (injection Hex as <- <-; exact I).
+    + exact (IH _ _ _ _ _ _ Hw Hex).
+    + destruct (lbl_match l l0) eqn:Lm; [injection Hex as <- <-; exact I|].
+      injection Hex as <- <-. rewrite memL_addl_other in Pb by exact Lm. exact Pb.
+    + destruct (lbl_match l l0) eqn:Lm; [exact (IH _ _ _ _ _ _ Hw Hex)|].
+      injection Hex as <- <-. rewrite memL_addl_other in Pb by exact Lm. exact Pb.
+  - (* SRepeat *)
+    assert (Hr : ok it lv (SRepeat l s c) = true) by exact Hok.
+    apply andb_prop in Hok. destruct Hok as [Hok Hb]. apply andb_prop in Hok. destruct Hok as [Ht Hni].
+    destruct (exec f s st) as [ob st1] eqn:Eb. pose proof (IH _ _ _ _ _ _ Hb Eb) as Pb.
+    assert (After : match eval st1 c with
+                    | Some v => if truthy v then (ONormal, st1) else exec f (SRepeat l s c) st1
+                    | None => (OErr, st1) end = (o, st') ->
+                    match o with OIter l1 => memL l1 it = true | OLeave l1 => memL l1 lv = true | _ => True end).
+    { intros Hx. destruct (eval st1 c) as [v|]; [|injection Hx as <- <-; exact I].
+      destruct (truthy v); [injection Hx as <- <-; exact I | exact (IH _ _ _ _ _ _ Hr Hx)]. }
+    destruct ob; try (injection Hex as <- <-; exact I).
+    + exact (After Hex).
+    + destruct (lbl_match l l0) eqn:Lm; [injection Hex as <- <-; exact I|].
+      injection Hex as <- <-. rewrite memL_addl_other in Pb by exact Lm. exact Pb.
+    + destruct (lbl_match l l0) eqn:Lm; [exact (After Hex)|]. injection Hex as <- <-. exact Pb.
+  - (* SLoop *)
+    assert (Hl : ok it lv (SLoop l s) = true) by exact Hok.
+    apply andb_prop in Hok. destruct Hok as [_ Hb].
+    destruct (exec f s st) as [ob st1] eqn:Eb. pose proof (IH _ _ _ _ _ _ Hb Eb) as Pb.
+    destruct ob; try (injection Hex as <- <-; exact I).
+    + exact (IH _ _ _ _ _ _ Hl Hex).
+    + destruct (lbl_match l l0) eqn:Lm; [injection Hex as <- <-; exact I|].
+      injection Hex as <- <-. rewrite memL_addl_other in Pb by exact Lm. exact Pb.
+    + destruct (lbl_match l l0) eqn:Lm; [exact (IH _ _ _ _ _ _ Hl Hex)|].
+      injection Hex as <- <-. rewrite memL_addl_other in Pb by exact Lm. exact Pb.
+  - injection Hex as <- <-. exact Hok.
+  - injection Hex as <- <-. exact Hok.
+Qed.
+
+(* ---------- the forward simulation ---------- *)
+(* what the machine does for an outcome of the definition.  [base]: where [code] starts; [from]: where the machine starts *)
+Definition sim_post_from (ops : list op) (env : lenv) (base from : Z) (code : list op) (st : state) (o : outcome) (st' : state) : Prop :=
+  match o with
+  | ONormal => reach ops from st (base + zlen code) st'
+  | OLeave l => exists cpre cpost sl e stg, code = cpre ++ OpGoto l e :: cpost /\ assocE l env = Some (sl, e) /\
+                  reach ops from st (base + zlen cpre) stg /\ eff_fwd cpost stg = st'
+  | OIter l => exists cpre cpost sl e stg, code = cpre ++ OpGoto l sl :: cpost /\ assocE l env = Some (sl, e) /\
+                  reach ops from st (base + zlen cpre) stg /\ eff_bwd cpre stg = st'
+  | OExit _ => False
+  | _ => True
+  end.
+
+Definition sim_post (ops : list op) (env : lenv) (base : Z) (code : list op) (st : state) (o : outcome) (st' : state) : Prop :=
+  sim_post_from ops env base base code st o st'.
+
+Definition lifted (o : outcome) (pre post : list op) (st' : state) : state :=
+  match o with OLeave _ => eff_fwd post st' | OIter _ => eff_bwd pre st' | _ => st' end.
+
+Lemma lift_post_from : forall ops env1 env2 base from0 from1 pre sub post st st1 o st',
+  match o with
+  | OLeave l | OIter l => forall v, assocE l env1 = Some v -> assocE l env2 = Some v
+  | ONormal => False
+  | _ => True
+  end ->
+  sim_post_from ops env1 (base + zlen pre) from1 sub st1 o st' ->
+  reach ops from0 st from1 st1 ->
+  sim_post_from ops env2 base from0 (pre ++ sub ++ post) st o (lifted o pre post st').
+Proof.
+  intros ops env1 env2 base from0 from1 pre sub post st st1 o st' Henv Hp Hr.
+  destruct o as [|l|l|d| |]; cbn [sim_post_from lifted] in *; try contradiction; try exact I.
+  - destruct Hp as [cpre [cpost [sl [e [stg [Hc [Ha [Hr2 He]]]]]]]].
+    exists (pre ++ cpre), (cpost ++ post), sl, e, stg. split; [subst sub; rewrite <- !app_assoc; reflexivity|].
+    split; [exact (Henv _ Ha)|]. split.
+    + eapply reach_trans; [exact Hr|]. rewrite zlen_app. replace (base + (zlen pre + zlen cpre)) with (base + zlen pre + zlen cpre) by lia. exact Hr2.
+    + rewrite eff_fwd_app, He. reflexivity.
+  - destruct Hp as [cpre [cpost [sl [e [stg [Hc [Ha [Hr2 He]]]]]]]].
+    exists (pre ++ cpre), (cpost ++ post), sl, e, stg. split; [subst sub; rewrite <- !app_assoc; reflexivity|].
+    split; [exact (Henv _ Ha)|]. split.
+    + eapply reach_trans; [exact Hr|]. rewrite zlen_app. replace (base + (zlen pre + zlen cpre)) with (base + zlen pre + zlen cpre) by lia. exact Hr2.
+    + rewrite eff_bwd_app, He. reflexivity.
+Qed.
+
+Lemma lift_post : forall ops env1 env2 base pre sub post st st1 o st',
+  match o with
+  | OLeave l | OIter l => forall v, assocE l env1 = Some v -> assocE l env2 = Some v
+  | ONormal => False
+  | _ => True
+  end ->
+  sim_post ops env1 (base + zlen pre) sub st1 o st' ->
+  reach ops base st (base + zlen pre) st1 ->
+  sim_post ops env2 base (pre ++ sub ++ post) st o (lifted o pre post st').
+Proof. intros. eapply lift_post_from; eassumption. Qed.
+
+(* the machine first does something else, then what the outcome needs *)
+Lemma post_prepend : forall ops env base from0 from1 code st0 st o st',
+  reach ops from0 st0 from1 st -> sim_post_from ops env base from1 code st o st' ->
+  sim_post_from ops env base from0 code st0 o st'.
+Proof.
+  intros ops env base from0 from1 code st0 st o st' Hr Hp.
+  destruct o as [|l|l|d| |]; cbn [sim_post_from] in *; try exact Hp.
+  - eapply reach_trans; eassumption.
+  - destruct Hp as [cpre [cpost [sl [e [stg [Hc [Ha [Hr2 He]]]]]]]].
+    exists cpre, cpost, sl, e, stg. repeat split; try assumption. eapply reach_trans; eassumption.
+  - destruct Hp as [cpre [cpost [sl [e [stg [Hc [Ha [Hr2 He]]]]]]]].
+    exists cpre, cpost, sl, e, stg. repeat split; try assumption. eapply reach_trans; eassumption.
+Qed.
+
+(* label bookkeeping *)
+Lemma lbl_match_true : forall l l', lbl_match l l' = true -> l <> 0%N /\ l' = l.
+Proof.
+  intros l l' H. unfold lbl_match in H. apply andb_prop in H. destruct H as [H1 H2].
+  apply negb_true_iff in H1. apply N.eqb_neq in H1. apply N.eqb_eq in H2. split; [exact H1 | symmetry; exact H2].
+Qed.
+
+Lemma assoc_bind_same : forall l v env, l <> 0%N -> assocE l (bind l v env) = Some v.
+Proof.
+  intros l v env H. unfold bind. apply N.eqb_neq in H. rewrite H. cbn [assocE]. rewrite N.eqb_refl. reflexivity.
+Qed.
+
+Lemma assoc_bind_other : forall l l' v env, lbl_match l l' = false -> assocE l' (bind l v env) = assocE l' env.
+Proof.
+  intros l l' v env H. unfold bind. destruct (N.eqb l 0) eqn:E0; [reflexivity|].
+  cbn [assocE]. unfold lbl_match in H. rewrite E0 in H. cbn in H.
+  rewrite N.eqb_sym. rewrite H. reflexivity.
+Qed.
+
+Lemma dom_bind_add : forall ls env l v,
+  (forall l', memL l' ls = true -> exists w, assocE l' env = Some w) ->
+  forall l', memL l' (addl l ls) = true -> exists w, assocE l' (bind l v env) = Some w.
+Proof.
+  intros ls env l v H l' Hm. unfold addl, bind in *. destruct (N.eqb l 0); [exact (H l' Hm)|].
+  cbn [memL existsb] in Hm. cbn [assocE]. destruct (N.eqb l' l); [eexists; reflexivity|]. exact (H l' Hm).
+Qed.
+
+Lemma dom_bind_keep : forall ls env l v,
+  (forall l', memL l' ls = true -> exists w, assocE l' env = Some w) ->
+  forall l', memL l' ls = true -> exists w, assocE l' (bind l v env) = Some w.
+Proof.
+  intros ls env l v H l' Hm. unfold bind. destruct (N.eqb l 0); [exact (H l' Hm)|].
+  cbn [assocE]. destruct (N.eqb l' l); [eexists; reflexivity|]. exact (H l' Hm).
+Qed.
+
+Ltac norm := repeat (progress (rewrite <- ?app_assoc; cbn [app])).
+Ltac ops_eq H := rewrite H; norm; reflexivity.
+
+Lemma step_at : forall ops A o B p st st', ops = A ++ o :: B -> p = zlen A ->
+  exec_op ops p o st = SOk p st' -> reach ops p st (p + 1) st'.
+Proof. intros; subst. apply step_plain. assumption. Qed.
+
+Lemma jump_at : forall ops A o B p c st st', ops = A ++ o :: B -> p = zlen A ->
+  exec_op ops p o st = SOk c st' -> reach ops p st (c + 1) st'.
+Proof. intros; subst. apply reach_one. unfold mstep. rewrite nth_op_mid. rewrite H1. reflexivity. Qed.
+
+Lemma jump_to : forall ops A o B p c q st st', ops = A ++ o :: B -> p = zlen A ->
+  exec_op ops p o st = SOk c st' -> q = c + 1 -> reach ops p st q st'.
+Proof. intros; subst. eapply jump_at; eauto. Qed.
+
+Lemma goto_fwd_at : forall ops A t idx mid x B p st, ops = A ++ (OpGoto t idx :: mid) ++ x :: B -> p = zlen A ->
+  idx = p + 1 + zlen mid + 1 -> exec_op ops p (OpGoto t idx) st = SOk (p + 1 + zlen mid) (eff_fwd mid st).
+Proof. intros; subst. apply goto_fwd. Qed.
+
+Lemma goto_next_at : forall ops A t idx B p st, ops = A ++ OpGoto t idx :: B -> p = zlen A -> idx = p + 1 ->
+  exec_op ops p (OpGoto t idx) st = SOk p st.
+Proof. intros; subst. apply goto_next. Qed.
+
+Lemma goto_bwd_at : forall ops A t idx mid B p st, ops = A ++ (mid ++ [OpGoto t idx]) ++ B -> mid <> [] ->
+  idx = zlen A -> p = zlen A + zlen mid -> exec_op ops p (OpGoto t idx) st = SOk (idx - 1) (eff_bwd mid st).
+Proof. intros; subst. apply goto_bwd. assumption. Qed.
+
+Definition P1 (f : nat) : Prop := forall s it lv env st o st',
+  ok it lv s = true ->
+  (forall l, memL l lv = true -> exists v, assocE l env = Some v) ->
+  (forall l, memL l it = true -> exists v, assocE l env = Some v) ->
+  exec f s st = (o, st') ->
+  forall A B ops, ops = A ++ compile' env (zlen A) s ++ B ->
+  sim_post ops env (zlen A) (compile' env (zlen A) s) st o st'.
+
+(* one more round of a REPEAT whose machine is already in the second copy of the body: that copy with its test and
+   back-jump is the code of WHILE NOT c DO body, entered just after the test *)
+Definition P2 (f : nat) : Prop := forall l body c it lv env st o st',
+  total c = true -> memL l it = false -> ok it (addl l lv) body = true ->
+  (forall l, memL l lv = true -> exists v, assocE l env = Some v) ->
+  (forall l, memL l it = true -> exists v, assocE l env = Some v) ->
+  exec f (SRepeat l body c) st = (o, st') ->
+  forall A B ops, ops = A ++ compile' env (zlen A) (SWhile l (ENot c) body) ++ B ->
+  sim_post_from ops env (zlen A) (zlen A + 1) (compile' env (zlen A) (SWhile l (ENot c) body)) st o st'.
+
+Lemma not_match_of_labels : forall l l' it, memL l it = false -> memL l' it = true -> lbl_match l l' = false.
+Proof.
+  intros l l' it H1 H2. destruct (lbl_match l l') eqn:E; [|reflexivity].
+  destruct (lbl_match_true _ _ E) as [_ ->]. congruence.
+Qed.
+
+Lemma P2_step : forall f, P1 f -> P2 f -> P2 (S f).
+Proof.
+  intros f IH IH2. unfold P1 in IH. unfold P2 in *.
+  intros l s c it lv env st o st' Ht Hni Hokb Hlv Hit Hex A B ops Hops.
+  cbn [exec] in Hex. cbn [compile'] in *.
+  set (e := zlen A + 1 + clen s + 1) in *.
+  set (env' := bind l (zlen A, e) env) in *.
+  set (W := OpIf (ENot c) e :: compile' env' (zlen A + 1) s ++ [OpGoto 0%N (zlen A)]) in *.
+  assert (Hlv' : forall l', memL l' (addl l lv) = true -> exists w, assocE l' env' = Some w) by (apply dom_bind_add; exact Hlv).
+  assert (Hit' : forall l', memL l' it = true -> exists w, assocE l' env' = Some w) by (apply dom_bind_keep; exact Hit).
+  destruct (exec f s st) as [ob st1] eqn:Eb.
+  pose proof (IH s it (addl l lv) env' st ob st1 Hokb Hlv' Hit' Eb (A ++ [OpIf (ENot c) e]) ([OpGoto 0%N (zlen A)] ++ B) ops) as P.
+  rewrite zlen_app, zlen_cons, zlen_nil in P. replace (zlen A + (1 + 0)) with (zlen A + 1) in P by lia.
+  specialize (P ltac:(unfold W in Hops; ops_eq Hops)).
+  pose proof (outcome_labels f s it (addl l lv) st ob st1 Hokb Eb) as Lab.
+  assert (HW : zlen W = clen s + 2) by (unfold W; rewrite zlen_cons, zlen_app, zlen_cons, zlen_nil, clen_compile'; lia).
+  assert (After : forall st2, reach ops (zlen A + 1) st (zlen A) st2 ->
+            match eval st2 c with
+            | Some v => if truthy v then (ONormal, st2) else exec f (SRepeat l s c) st2
+            | None => (OErr, st2) end = (o, st') ->
+            sim_post_from ops env (zlen A) (zlen A + 1) W st o st').
+  { intros st2 Hr Hx. destruct (eval st2 c) as [v|] eqn:Ev; [|injection Hx as <- <-; exact I].
+    destruct v as [z|]; [|exfalso; exact (total_nonnull c st2 None Ht Ev eq_refl)].
+    assert (Evn : eval st2 (ENot c) = Some (b2v (z =? 0))) by (cbn [eval]; rewrite Ev; reflexivity).
+    destruct (truthy (Some z)) eqn:Tz.
+    - injection Hx as <- <-. cbn [sim_post_from]. eapply reach_trans; [exact Hr|].
+      eapply (jump_to ops A _ _ _ (e - 1)); [unfold W in Hops; ops_eq Hops | reflexivity | | rewrite HW; unfold e; lia].
+      cbn [exec_op]. rewrite Evn, truthy_b2v. cbn [truthy] in Tz. apply negb_true_iff in Tz. rewrite Tz. reflexivity.
+    - pose proof (IH2 l s c it lv env st2 o st' Ht Hni Hokb Hlv Hit Hx A B ops) as Pr. cbn [compile'] in Pr.
+      specialize (Pr Hops). eapply post_prepend; [|exact Pr].
+      eapply reach_trans; [exact Hr|].
+      eapply (step_at ops A); [unfold W in Hops; ops_eq Hops | reflexivity |].
+      cbn [exec_op]. rewrite Evn, truthy_b2v. cbn [truthy] in Tz. apply negb_false_iff in Tz. rewrite Tz. reflexivity. }
+  destruct ob as [|l'|l'|d| |].
+  - (* body completed: back-jump, then the test *)
+    apply (After st1); [|exact Hex]. cbn [sim_post sim_post_from] in P. rewrite clen_compile' in P.
+    eapply reach_trans; [exact P|].
+    assert (Hb : eff_bwd (OpIf (ENot c) e :: compile' env' (zlen A + 1) s) st1 = st1).
+    { change (eff_bwd (OpIf (ENot c) e :: compile' env' (zlen A + 1) s) st1) with (eff_bwd (compile' env' (zlen A + 1) s) st1). apply balanced_bwd. }
+    rewrite <- Hb at 2.
+    eapply (jump_to ops (A ++ OpIf (ENot c) e :: compile' env' (zlen A + 1) s) _ _ _ (zlen A - 1));
+      [unfold W in Hops; ops_eq Hops | rewrite zlen_app, zlen_cons, clen_compile'; lia | | lia].
+    eapply (goto_bwd_at ops A 0%N (zlen A) (OpIf (ENot c) e :: compile' env' (zlen A + 1) s) B);
+      [unfold W in Hops; ops_eq Hops | discriminate | reflexivity | rewrite zlen_cons, clen_compile'; lia].
+  - destruct (lbl_match l l') eqn:Lm.
+    + injection Hex as <- <-. destruct (lbl_match_true _ _ Lm) as [Hl0 ->].
+      cbn [sim_post sim_post_from] in P. destruct P as [cpre [cpost [sl [e' [stg [Hc [Ha [Hr He]]]]]]]].
+      unfold env' in Ha. rewrite assoc_bind_same in Ha by exact Hl0. injection Ha as <- <-.
+      pose proof (clen_compile' s env' (zlen A + 1)) as Hlen. rewrite Hc, zlen_app, zlen_cons in Hlen.
+      cbn [sim_post_from]. rewrite HW.
+      eapply reach_trans; [exact Hr|]. rewrite <- He.
+      eapply (jump_to ops (A ++ OpIf (ENot c) e :: cpre) _ _ _ (zlen A + 1 + zlen cpre + 1 + zlen cpost));
+        [unfold W in Hops; rewrite Hops, Hc; norm; reflexivity | rewrite zlen_app, zlen_cons; lia | | lia].
+      eapply (goto_fwd_at ops (A ++ OpIf (ENot c) e :: cpre) l e cpost (OpGoto 0%N (zlen A)) B);
+        [unfold W in Hops; rewrite Hops, Hc; norm; reflexivity | rewrite zlen_app, zlen_cons; lia | unfold e; lia].
+    + injection Hex as <- <-.
+      pose proof (lift_post_from ops env' env (zlen A) (zlen A + 1) (zlen A + 1) [OpIf (ENot c) e] (compile' env' (zlen A + 1) s)
+                    [OpGoto 0%N (zlen A)] st st (OLeave l') st1) as L.
+      rewrite zlen_cons, zlen_nil in L. replace (zlen A + (1 + 0)) with (zlen A + 1) in L by lia.
+      refine (L _ P (reach_refl _ _ _)). intros w Hw. unfold env' in Hw. rewrite assoc_bind_other in Hw by exact Lm. exact Hw.
+  - cbn in Lab. rewrite (not_match_of_labels l l' it Hni Lab) in Hex. injection Hex as <- <-.
+    pose proof (lift_post_from ops env' env (zlen A) (zlen A + 1) (zlen A + 1) [OpIf (ENot c) e] (compile' env' (zlen A + 1) s)
+                  [OpGoto 0%N (zlen A)] st st (OIter l') st1) as L.
+    rewrite zlen_cons, zlen_nil in L. replace (zlen A + (1 + 0)) with (zlen A + 1) in L by lia.
+    refine (L _ P (reach_refl _ _ _)). intros w Hw. unfold env' in Hw.
+    rewrite assoc_bind_other in Hw by (exact (not_match_of_labels l l' it Hni Lab)). exact Hw.
+  - contradiction.
+  - injection Hex as <- <-. exact I.
+  - injection Hex as <- <-. exact I.
+Qed.
+
+Lemma P1_step : forall f, P1 f -> P2 f -> P1 (S f).
+Proof.
+  intros f IH IH2. unfold P1 in IH. intros s it lv env st o st' Hok Hlv Hit Hex A B ops Hops.
+  destruct s; cbn [exec] in Hex; cbn [ok] in Hok; try discriminate Hok.
+  - (* SSkip *) injection Hex as <- <-. cbn [sim_post sim_post_from compile']. rewrite zlen_nil, Z.add_0_r. apply reach_refl.
+  - (* SSeq *)
+    apply andb_prop in Hok. destruct Hok as [Hok1 Hok2].
+    destruct (exec f s1 st) as [oa st1] eqn:Ea.
+    pose proof (IH s1 it lv env st oa st1 Hok1 Hlv Hit Ea A (compile' env (zlen A + clen s1) s2 ++ B) ops) as P1.
+    cbn [compile'] in Hops. rewrite <- app_assoc in Hops. specialize (P1 Hops).
+    cbn [compile'].
+    destruct oa as [|l|l|d| |].
+    + (* a normal *)
+      pose proof (IH s2 it lv env st1 o st' Hok2 Hlv Hit Hex (A ++ compile' env (zlen A) s1) B ops) as P2.
+      rewrite zlen_app, clen_compile' in P2. rewrite <- app_assoc in P2. specialize (P2 Hops).
+      cbn [sim_post sim_post_from] in P1. rewrite clen_compile' in P1.
+      destruct o as [|l|l|d| |]; try exact I.
+      * cbn [sim_post sim_post_from] in *. rewrite zlen_app, !clen_compile' in *. eapply reach_trans; [exact P1|].
+        replace (zlen A + (clen s1 + clen s2)) with (zlen A + clen s1 + clen s2) by lia. exact P2.
+      * pose proof (lift_post ops env env (zlen A) (compile' env (zlen A) s1) (compile' env (zlen A + clen s1) s2) [] st st1 (OLeave l) st') as L.
+        rewrite clen_compile' in L. specialize (L (fun v H => H) P2 P1). cbn [lifted eff_fwd fold_left] in L. rewrite app_nil_r in L. exact L.
+      * pose proof (lift_post ops env env (zlen A) (compile' env (zlen A) s1) (compile' env (zlen A + clen s1) s2) [] st st1 (OIter l) st') as L.
+        rewrite clen_compile' in L. specialize (L (fun v H => H) P2 P1). cbn [lifted] in L. rewrite app_nil_r, balanced_bwd in L. exact L.
+      * exact P2.
+    + injection Hex as <- <-.
+      pose proof (lift_post ops env env (zlen A) [] (compile' env (zlen A) s1) (compile' env (zlen A + clen s1) s2) st st (OLeave l) st1) as L.
+      rewrite zlen_nil, Z.add_0_r in L. specialize (L (fun v H => H) P1 (reach_refl _ _ _)). cbn [lifted app] in L. rewrite balanced_fwd in L. exact L.
+    + injection Hex as <- <-.
+      pose proof (lift_post ops env env (zlen A) [] (compile' env (zlen A) s1) (compile' env (zlen A + clen s1) s2) st st (OIter l) st1) as L.
+      rewrite zlen_nil, Z.add_0_r in L. specialize (L (fun v H => H) P1 (reach_refl _ _ _)). cbn [lifted app eff_bwd fold_right] in L. exact L.
+    + contradiction.
+    + injection Hex as <- <-. exact I.
+    + injection Hex as <- <-. exact I.
+  - (* SDeclare *) injection Hex as <- <-. cbn [sim_post sim_post_from compile']. rewrite zlen_cons, zlen_nil.
+    subst ops. cbn [compile' app]. replace (zlen A + (1 + 0)) with (zlen A + 1) by lia. apply step_plain. reflexivity.
+  - (* SSet *)
+    destruct (eval st e) as [v|] eqn:Ev; [|injection Hex as <- <-; exact I].
+    destruct (set_var st x v) as [st2|] eqn:Es; injection Hex as <- <-; [|exact I].
+    cbn [sim_post sim_post_from compile']. rewrite zlen_cons, zlen_nil. subst ops. cbn [compile' app].
+    replace (zlen A + (1 + 0)) with (zlen A + 1) by lia. apply step_plain. cbn [exec_op]. rewrite Ev, Es. reflexivity.
+  - (* SSetUser *)
+    destruct (eval st e) as [v|] eqn:Ev; injection Hex as <- <-; [|exact I].
+    cbn [sim_post sim_post_from compile']. rewrite zlen_cons, zlen_nil. subst ops. cbn [compile' app].
+    replace (zlen A + (1 + 0)) with (zlen A + 1) by lia. apply step_plain. cbn [exec_op]. rewrite Ev. reflexivity.
+  - (* SBlock *)
+    apply andb_prop in Hok. destruct Hok as [Hl Hokb]. apply N.eqb_eq in Hl. subst l.
+    cbn [compile'] in *.
+    assert (R0 : reach ops (zlen A) st (zlen A + 1) (push_scope st)).
+    { eapply (step_at ops A); [ops_eq Hops | reflexivity | reflexivity]. }
+    destruct (exec f s (push_scope st)) as [ob st1] eqn:Eb.
+    pose proof (IH s it lv env (push_scope st) ob st1 Hokb Hlv Hit Eb (A ++ [OpScopeBegin 0%N (zlen A + 1)])
+                  ([OpScopeEnd 0%N (zlen A + 1 + clen s + 1)] ++ B) ops) as P.
+    rewrite zlen_app, zlen_cons, zlen_nil in P. replace (zlen A + (1 + 0)) with (zlen A + 1) in P by lia.
+    specialize (P ltac:(ops_eq Hops)).
+    destruct ob as [|l|l|d| |].
+    + injection Hex as <- <-. cbn [sim_post sim_post_from] in *. rewrite clen_compile' in P.
+      rewrite zlen_cons, zlen_app, zlen_cons, zlen_nil, clen_compile'.
+      eapply reach_trans; [exact R0|]. eapply reach_trans; [exact P|].
+      replace (zlen A + (1 + (clen s + (1 + 0)))) with (zlen A + 1 + clen s + 1) by lia.
+      eapply (step_at ops (A ++ OpScopeBegin 0%N (zlen A + 1) :: compile' env (zlen A + 1) s));
+        [ops_eq Hops | rewrite zlen_app, zlen_cons, clen_compile'; lia | reflexivity].
+    + cbn in Hex. injection Hex as <- <-.
+      pose proof (lift_post ops env env (zlen A) [OpScopeBegin 0%N (zlen A + 1)] (compile' env (zlen A + 1) s)
+                    [OpScopeEnd 0%N (zlen A + 1 + clen s + 1)] st (push_scope st) (OLeave l) st1) as L.
+      rewrite zlen_cons, zlen_nil in L. replace (zlen A + (1 + 0)) with (zlen A + 1) in L by lia.
+      exact (L (fun v H => H) P R0).
+    + injection Hex as <- <-.
+      pose proof (lift_post ops env env (zlen A) [OpScopeBegin 0%N (zlen A + 1)] (compile' env (zlen A + 1) s)
+                    [OpScopeEnd 0%N (zlen A + 1 + clen s + 1)] st (push_scope st) (OIter l) st1) as L.
+      rewrite zlen_cons, zlen_nil in L. replace (zlen A + (1 + 0)) with (zlen A + 1) in L by lia.
+      exact (L (fun v H => H) P R0).
+    + contradiction.
+    + injection Hex as <- <-. exact I.
+    + injection Hex as <- <-. exact I.
+  - (* SIf *)
+    apply andb_prop in Hok. destruct Hok as [Hok Hnb]. apply andb_prop in Hok. destruct Hok as [Hok1 Hok2].
+    apply negb_true_iff in Hnb.
+    cbn [compile'] in *.
+    set (es := zlen A + 1 + clen s1 + 1) in *.
+    destruct (eval st c) as [v|] eqn:Ev; [|injection Hex as <- <-; exact I].
+    destruct (truthy v) eqn:Tv.
+    + (* THEN *)
+      assert (R0 : reach ops (zlen A) st (zlen A + 1) st).
+      { eapply (step_at ops A); [ops_eq Hops | reflexivity | cbn [exec_op]; rewrite Ev, Tv; reflexivity]. }
+      pose proof (IH s1 it lv env st o st' Hok1 Hlv Hit Hex (A ++ [OpIf c es])
+                    ([OpGoto 0%N (es + clen s2)] ++ compile' env es s2 ++ B) ops) as P.
+      rewrite zlen_app, zlen_cons, zlen_nil in P. replace (zlen A + (1 + 0)) with (zlen A + 1) in P by lia.
+      specialize (P ltac:(ops_eq Hops)).
+      destruct o as [|l|l|d| |]; try exact I.
+      * cbn [sim_post sim_post_from] in *. rewrite clen_compile' in P.
+        rewrite zlen_cons, !zlen_app, zlen_cons, zlen_nil, !clen_compile'.
+        eapply reach_trans; [exact R0|]. eapply reach_trans; [exact P|].
+        replace (zlen A + (1 + (clen s1 + (1 + 0 + clen s2)))) with (es + clen s2) by (unfold es; lia).
+        destruct (Z.eq_dec (clen s2) 0) as [E0|E0].
+        -- (* empty ELSE: the Goto targets the next operation *)
+           rewrite E0, Z.add_0_r. replace es with (zlen A + 1 + clen s1 + 1) by reflexivity.
+           eapply (jump_at ops (A ++ OpIf c es :: compile' env (zlen A + 1) s1));
+             [ops_eq Hops | rewrite zlen_app, zlen_cons, clen_compile'; lia |].
+           eapply (goto_next_at ops (A ++ OpIf c es :: compile' env (zlen A + 1) s1) 0%N _ (compile' env es s2 ++ B));
+             [ops_eq Hops | rewrite zlen_app, zlen_cons, clen_compile'; lia | unfold es; lia].
+        -- (* the Goto walks over the ELSE branch but for its last operation *)
+           pose proof (clen_pos_ne s2 env es E0) as Hne.
+           pose proof (app_removelast_last (OpGoto 0%N 0) Hne) as Hsplit.
+           pose proof (clen_compile' s2 env es) as Hlen. rewrite Hsplit, zlen_app, zlen_cons, zlen_nil in Hlen.
+           replace (es + clen s2) with ((zlen A + 1 + clen s1) + 1 + zlen (removelast (compile' env es s2)) + 1) by (assert (Hes : es = zlen A + 1 + clen s1 + 1) by reflexivity; clearbody es; lia).
+           replace st' with (eff_fwd (removelast (compile' env es s2)) st') at 2 by (eapply balanced_removelast; eassumption).
+           eapply (jump_at ops (A ++ OpIf c es :: compile' env (zlen A + 1) s1));
+             [ops_eq Hops | rewrite zlen_app, zlen_cons, clen_compile'; lia |].
+           eapply (goto_fwd_at ops (A ++ OpIf c es :: compile' env (zlen A + 1) s1) 0%N _ (removelast (compile' env es s2))
+                     (last (compile' env es s2) (OpGoto 0%N 0)) B).
+           ++ rewrite Hops. norm. rewrite Hsplit at 1. norm. reflexivity.
+           ++ rewrite zlen_app, zlen_cons, clen_compile'. lia.
+           ++ assert (Hes : es = zlen A + 1 + clen s1 + 1) by reflexivity. clearbody es. lia.
+      * pose proof (lift_post ops env env (zlen A) [OpIf c es] (compile' env (zlen A + 1) s1)
+                      ([OpGoto 0%N (es + clen s2)] ++ compile' env es s2) st st (OLeave l) st') as L.
+        rewrite zlen_cons, zlen_nil in L. replace (zlen A + (1 + 0)) with (zlen A + 1) in L by lia.
+        specialize (L (fun v H => H) P R0). cbn [lifted] in L. rewrite eff_fwd_app, balanced_fwd in L. exact L.
+      * pose proof (lift_post ops env env (zlen A) [OpIf c es] (compile' env (zlen A + 1) s1)
+                      ([OpGoto 0%N (es + clen s2)] ++ compile' env es s2) st st (OIter l) st') as L.
+        rewrite zlen_cons, zlen_nil in L. replace (zlen A + (1 + 0)) with (zlen A + 1) in L by lia.
+        exact (L (fun v H => H) P R0).
+      * exact P.
+    + (* ELSE *)
+      assert (R0 : reach ops (zlen A) st es st).
+      { replace es with (es - 1 + 1) by lia.
+        eapply (jump_at ops A); [ops_eq Hops | reflexivity | cbn [exec_op]; rewrite Ev, Tv; reflexivity]. }
+      pose proof (IH s2 it lv env st o st' Hok2 Hlv Hit Hex
+                    (A ++ OpIf c es :: compile' env (zlen A + 1) s1 ++ [OpGoto 0%N (es + clen s2)]) B ops) as P.
+      rewrite zlen_app, zlen_cons, zlen_app, zlen_cons, zlen_nil, clen_compile' in P.
+      replace (zlen A + (1 + (clen s1 + (1 + 0)))) with es in P by (unfold es; lia).
+      specialize (P ltac:(ops_eq Hops)).
+      destruct o as [|l|l|d| |]; try exact I.
+      * cbn [sim_post sim_post_from] in *. rewrite clen_compile' in P.
+        rewrite zlen_cons, !zlen_app, zlen_cons, zlen_nil, !clen_compile'.
+        eapply reach_trans; [exact R0|].
+        replace (zlen A + (1 + (clen s1 + (1 + 0 + clen s2)))) with (es + clen s2) by (unfold es; lia). exact P.
+      * pose proof (lift_post ops env env (zlen A) (OpIf c es :: compile' env (zlen A + 1) s1 ++ [OpGoto 0%N (es + clen s2)])
+                      (compile' env es s2) [] st st (OLeave l) st') as L.
+        rewrite zlen_cons, zlen_app, zlen_cons, zlen_nil, clen_compile' in L.
+        replace (zlen A + (1 + (clen s1 + (1 + 0)))) with es in L by (unfold es; lia).
+        specialize (L (fun v H => H) P R0). cbn [lifted eff_fwd fold_left] in L. rewrite app_nil_r in L.
+        cbn [app] in L. rewrite <- app_assoc in L. exact L.
+      * pose proof (lift_post ops env env (zlen A) (OpIf c es :: compile' env (zlen A + 1) s1 ++ [OpGoto 0%N (es + clen s2)])
+                      (compile' env es s2) [] st st (OIter l) st') as L.
+        rewrite zlen_cons, zlen_app, zlen_cons, zlen_nil, clen_compile' in L.
+        replace (zlen A + (1 + (clen s1 + (1 + 0)))) with es in L by (unfold es; lia).
+        specialize (L (fun v H => H) P R0). cbn [lifted] in L. rewrite app_nil_r in L.
+        change (eff_bwd (OpIf c es :: compile' env (zlen A + 1) s1 ++ [OpGoto 0%N (es + clen s2)]) st')
+          with (eff_bwd (compile' env (zlen A + 1) s1 ++ [OpGoto 0%N (es + clen s2)]) st') in L.
+        rewrite eff_bwd_app in L. cbn [eff_bwd fold_right scope_effect_bwd] in L.
+        fold (eff_bwd (compile' env (zlen A + 1) s1) st') in L. rewrite balanced_bwd in L.
+        cbn [app] in L. rewrite <- app_assoc in L. exact L.
+      * exact P.
+  - (* SWhile *)
+    cbn [compile'] in *.
+    set (e := zlen A + 1 + clen s + 1) in *.
+    set (env' := bind l (zlen A, e) env) in *.
+    assert (Hlv' : forall l', memL l' (addl l lv) = true -> exists w, assocE l' env' = Some w) by (apply dom_bind_add; exact Hlv).
+    assert (Hit' : forall l', memL l' (addl l it) = true -> exists w, assocE l' env' = Some w) by (apply dom_bind_add; exact Hit).
+    destruct (eval st c) as [v|] eqn:Ev; [|injection Hex as <- <-; exact I].
+    destruct (truthy v) eqn:Tv.
+    2:{ (* the condition fails: leave the loop *)
+      injection Hex as <- <-. cbn [sim_post sim_post_from].
+      rewrite zlen_cons, zlen_app, zlen_cons, zlen_nil, clen_compile'.
+      replace (zlen A + (1 + (clen s + (1 + 0)))) with (e - 1 + 1) by (unfold e; lia).
+      eapply (jump_at ops A); [ops_eq Hops | reflexivity | cbn [exec_op]; rewrite Ev, Tv; reflexivity]. }
+    assert (R0 : reach ops (zlen A) st (zlen A + 1) st).
+    { eapply (step_at ops A); [ops_eq Hops | reflexivity | cbn [exec_op]; rewrite Ev, Tv; reflexivity]. }
+    destruct (exec f s st) as [ob st1] eqn:Eb.
+    pose proof (IH s (addl l it) (addl l lv) env' st ob st1 Hok Hlv' Hit' Eb (A ++ [OpIf c e]) ([OpGoto 0%N (zlen A)] ++ B) ops) as P.
+    rewrite zlen_app, zlen_cons, zlen_nil in P. replace (zlen A + (1 + 0)) with (zlen A + 1) in P by lia.
+    specialize (P ltac:(ops_eq Hops)).
+    (* the whole loop again, from its first operation *)
+    assert (Again : forall st2, reach ops (zlen A) st (zlen A) st2 -> exec f (SWhile l c s) st2 = (o, st') ->
+              sim_post ops env (zlen A) (OpIf c e :: compile' env' (zlen A + 1) s ++ [OpGoto 0%N (zlen A)]) st o st').
+    { intros st2 Hr Hx.
+      pose proof (IH (SWhile l c s) it lv env st2 o st' Hok Hlv Hit Hx A B ops) as Pw. cbn [compile'] in Pw.
+      specialize (Pw Hops). eapply post_prepend; [exact Hr | exact Pw]. }
+    destruct ob as [|l'|l'|d| |].
+    + (* body completed: the back-jump *)
+      apply (Again st1); [|exact Hex]. cbn [sim_post sim_post_from] in P. rewrite clen_compile' in P.
+      eapply reach_trans; [exact R0|]. eapply reach_trans; [exact P|].
+      assert (Hb : eff_bwd (OpIf c e :: compile' env' (zlen A + 1) s) st1 = st1).
+      { change (eff_bwd (OpIf c e :: compile' env' (zlen A + 1) s) st1) with (eff_bwd (compile' env' (zlen A + 1) s) st1). apply balanced_bwd. }
+      rewrite <- Hb at 2.
+      eapply (jump_to ops (A ++ OpIf c e :: compile' env' (zlen A + 1) s) _ _ _ (zlen A - 1));
+        [ops_eq Hops | rewrite zlen_app, zlen_cons, clen_compile'; lia | | lia].
+      eapply (goto_bwd_at ops A 0%N (zlen A) (OpIf c e :: compile' env' (zlen A + 1) s) B);
+        [ops_eq Hops | discriminate | reflexivity | rewrite zlen_cons, clen_compile'; lia].
+    + (* LEAVE *)
+      destruct (lbl_match l l') eqn:Lm.
+      * injection Hex as <- <-. destruct (lbl_match_true _ _ Lm) as [Hl0 ->].
+        cbn [sim_post sim_post_from] in P. destruct P as [cpre [cpost [sl [e' [stg [Hc [Ha [Hr He]]]]]]]].
+        unfold env' in Ha. rewrite assoc_bind_same in Ha by exact Hl0. injection Ha as <- <-.
+        pose proof (clen_compile' s env' (zlen A + 1)) as Hlen. rewrite Hc, zlen_app, zlen_cons in Hlen.
+        cbn [sim_post sim_post_from]. rewrite zlen_cons, zlen_app, zlen_cons, zlen_nil, clen_compile'.
+        eapply reach_trans; [exact R0|]. eapply reach_trans; [exact Hr|].
+        replace (zlen A + (1 + (clen s + (1 + 0)))) with (zlen A + 1 + zlen cpre + 1 + zlen cpost + 1) by lia.
+        rewrite <- He.
+        eapply (jump_at ops (A ++ OpIf c e :: cpre)); [rewrite Hops, Hc; norm; reflexivity | rewrite zlen_app, zlen_cons; lia |].
+        eapply (goto_fwd_at ops (A ++ OpIf c e :: cpre) l e cpost (OpGoto 0%N (zlen A)) B);
+          [rewrite Hops, Hc; norm; reflexivity | rewrite zlen_app, zlen_cons; lia | unfold e; lia].
+      * injection Hex as <- <-.
+        pose proof (lift_post ops env' env (zlen A) [OpIf c e] (compile' env' (zlen A + 1) s) [OpGoto 0%N (zlen A)] st st (OLeave l') st1) as L.
+        rewrite zlen_cons, zlen_nil in L. replace (zlen A + (1 + 0)) with (zlen A + 1) in L by lia.
+        refine (L _ P R0). intros w Hw. unfold env' in Hw. rewrite assoc_bind_other in Hw by exact Lm. exact Hw.
+    + (* ITERATE *)
+      destruct (lbl_match l l') eqn:Lm.
+      * destruct (lbl_match_true _ _ Lm) as [Hl0 ->].
+        cbn [sim_post sim_post_from] in P. destruct P as [cpre [cpost [sl [e' [stg [Hc [Ha [Hr He]]]]]]]].
+        unfold env' in Ha. rewrite assoc_bind_same in Ha by exact Hl0. injection Ha as <- <-.
+        apply (Again st1); [|exact Hex].
+        eapply reach_trans; [exact R0|]. eapply reach_trans; [exact Hr|].
+        rewrite <- He.
+        change (eff_bwd cpre stg) with (eff_bwd (OpIf c e :: cpre) stg).
+        eapply (jump_to ops (A ++ OpIf c e :: cpre) _ _ _ (zlen A - 1));
+          [rewrite Hops, Hc; norm; reflexivity | rewrite zlen_app, zlen_cons; lia | | lia].
+        eapply (goto_bwd_at ops A l (zlen A) (OpIf c e :: cpre) (cpost ++ [OpGoto 0%N (zlen A)] ++ B));
+          [rewrite Hops, Hc; norm; reflexivity | discriminate | reflexivity | rewrite zlen_cons; lia].
+      * injection Hex as <- <-.
+        pose proof (lift_post ops env' env (zlen A) [OpIf c e] (compile' env' (zlen A + 1) s) [OpGoto 0%N (zlen A)] st st (OIter l') st1) as L.
+        rewrite zlen_cons, zlen_nil in L. replace (zlen A + (1 + 0)) with (zlen A + 1) in L by lia.
+        refine (L _ P R0). intros w Hw. unfold env' in Hw. rewrite assoc_bind_other in Hw by exact Lm. exact Hw.
+    + contradiction.
+    + injection Hex as <- <-. exact I.
+    + injection Hex as <- <-. exact I.
+  - (* SRepeat *)
+    apply andb_prop in Hok. destruct Hok as [Hok Hokb]. apply andb_prop in Hok. destruct Hok as [Ht Hni].
+    apply negb_true_iff in Hni.
+    cbn [compile'] in *.
+    set (ls := zlen A + clen s) in *.
+    set (e := ls + 1 + clen s + 1) in *.
+    set (env' := bind l (ls, e) env) in *.
+    set (c1 := compile' env' (zlen A) s) in *.
+    set (W := OpIf (ENot c) e :: compile' env' (ls + 1) s ++ [OpGoto 0%N ls]) in *.
+    assert (Hlv' : forall l', memL l' (addl l lv) = true -> exists w, assocE l' env' = Some w) by (apply dom_bind_add; exact Hlv).
+    assert (Hit' : forall l', memL l' it = true -> exists w, assocE l' env' = Some w) by (apply dom_bind_keep; exact Hit).
+    assert (Hc1 : zlen c1 = clen s) by (unfold c1; apply clen_compile').
+    assert (HW : zlen W = clen s + 2) by (unfold W; rewrite zlen_cons, zlen_app, zlen_cons, zlen_nil, clen_compile'; lia).
+    assert (HbW : forall x, eff_fwd W x = x).
+    { intros x. unfold W. change (eff_fwd (OpIf (ENot c) e :: compile' env' (ls + 1) s ++ [OpGoto 0%N ls]) x)
+        with (eff_fwd (compile' env' (ls + 1) s ++ [OpGoto 0%N ls]) x). rewrite eff_fwd_app, balanced_fwd. reflexivity. }
+    destruct (exec f s st) as [ob st1] eqn:Eb.
+    pose proof (IH s it (addl l lv) env' st ob st1 Hokb Hlv' Hit' Eb A (W ++ B) ops) as P. fold c1 in P.
+    specialize (P ltac:(unfold W in Hops |- *; ops_eq Hops)).
+    pose proof (outcome_labels f s it (addl l lv) st ob st1 Hokb Eb) as Lab.
+    assert (After : forall st2, reach ops (zlen A) st ls st2 ->
+              match eval st2 c with
+              | Some v => if truthy v then (ONormal, st2) else exec f (SRepeat l s c) st2
+              | None => (OErr, st2) end = (o, st') ->
+              sim_post ops env (zlen A) (c1 ++ W) st o st').
+    { intros st2 Hr Hx. destruct (eval st2 c) as [v|] eqn:Ev; [|injection Hx as <- <-; exact I].
+      destruct v as [z|]; [|exfalso; exact (total_nonnull c st2 None Ht Ev eq_refl)].
+      assert (Evn : eval st2 (ENot c) = Some (b2v (z =? 0))) by (cbn [eval]; rewrite Ev; reflexivity).
+      destruct (truthy (Some z)) eqn:Tz.
+      - injection Hx as <- <-. cbn [sim_post sim_post_from]. eapply reach_trans; [exact Hr|].
+        eapply (jump_to ops (A ++ c1) _ _ _ (e - 1));
+          [unfold W in Hops; ops_eq Hops | rewrite zlen_app, Hc1; reflexivity | | rewrite zlen_app, Hc1, HW; unfold e, ls; lia].
+        cbn [exec_op]. rewrite Evn, truthy_b2v. cbn [truthy] in Tz. apply negb_true_iff in Tz. rewrite Tz. reflexivity.
+      - pose proof (IH2 l s c it lv env st2 o st' Ht Hni Hokb Hlv Hit Hx (A ++ c1) B ops) as Pr.
+        rewrite zlen_app, Hc1 in Pr. cbn [compile'] in Pr. fold ls in Pr. fold e in Pr. fold env' in Pr. fold W in Pr.
+        specialize (Pr ltac:(ops_eq Hops)).
+        assert (Hstep : reach ops (zlen A) st (ls + 1) st2).
+        { eapply reach_trans; [exact Hr|].
+          eapply (step_at ops (A ++ c1)); [unfold W in Hops; ops_eq Hops | rewrite zlen_app, Hc1; reflexivity |].
+          cbn [exec_op]. rewrite Evn, truthy_b2v. cbn [truthy] in Tz. apply negb_false_iff in Tz. rewrite Tz. reflexivity. }
+        destruct o as [|l'|l'|d| |]; try exact I.
+        + cbn [sim_post sim_post_from] in *. eapply reach_trans; [exact Hstep|].
+          rewrite zlen_app, Hc1. replace (zlen A + (clen s + zlen W)) with (ls + zlen W) by (unfold ls; lia). exact Pr.
+        + pose proof (lift_post_from ops env env (zlen A) (zlen A) (ls + 1) c1 W [] st st2 (OLeave l') st') as L.
+          rewrite Hc1 in L. fold ls in L. specialize (L (fun v H => H) Pr Hstep). cbn [lifted eff_fwd fold_left] in L.
+          rewrite app_nil_r in L. exact L.
+        + pose proof (lift_post_from ops env env (zlen A) (zlen A) (ls + 1) c1 W [] st st2 (OIter l') st') as L.
+          rewrite Hc1 in L. fold ls in L. specialize (L (fun v H => H) Pr Hstep). cbn [lifted] in L.
+          rewrite app_nil_r in L. unfold c1 in L at 2. rewrite balanced_bwd in L. exact L.
+        + exact Pr. }
+    destruct ob as [|l'|l'|d| |].
+    + apply (After st1); [|exact Hex]. cbn [sim_post sim_post_from] in P. rewrite Hc1 in P. exact P.
+    + destruct (lbl_match l l') eqn:Lm.
+      * injection Hex as <- <-. destruct (lbl_match_true _ _ Lm) as [Hl0 ->].
+        cbn [sim_post sim_post_from] in P. destruct P as [cpre [cpost [sl [e' [stg [Hc [Ha [Hr He]]]]]]]].
+        unfold env' in Ha. rewrite assoc_bind_same in Ha by exact Hl0. injection Ha as <- <-.
+        pose proof Hc1 as Hlen. rewrite Hc, zlen_app, zlen_cons in Hlen.
+        cbn [sim_post sim_post_from]. rewrite zlen_app, Hc1, HW.
+        eapply reach_trans; [exact Hr|].
+        assert (Hmid : eff_fwd (cpost ++ OpIf (ENot c) e :: compile' env' (ls + 1) s) stg = st1).
+        { rewrite eff_fwd_app, He.
+          change (eff_fwd (OpIf (ENot c) e :: compile' env' (ls + 1) s) st1) with (eff_fwd (compile' env' (ls + 1) s) st1).
+          apply balanced_fwd. }
+        rewrite <- Hmid.
+        eapply (jump_to ops (A ++ cpre) _ _ _ (zlen A + zlen cpre + 1 + zlen (cpost ++ OpIf (ENot c) e :: compile' env' (ls + 1) s)));
+          [unfold W in Hops; rewrite Hops, Hc; norm; reflexivity | rewrite zlen_app; lia | | rewrite zlen_app, zlen_cons, clen_compile'; unfold ls; lia].
+        eapply (goto_fwd_at ops (A ++ cpre) l e (cpost ++ OpIf (ENot c) e :: compile' env' (ls + 1) s) (OpGoto 0%N ls) B);
+          [unfold W in Hops; rewrite Hops, Hc; norm; reflexivity | rewrite zlen_app; lia
+          | rewrite zlen_app, zlen_cons, clen_compile'; unfold e, ls; lia].
+      * injection Hex as <- <-.
+        pose proof (lift_post ops env' env (zlen A) [] c1 W st st (OLeave l') st1) as L.
+        rewrite zlen_nil, Z.add_0_r in L. specialize (L ltac:(intros w Hw; unfold env' in Hw; rewrite assoc_bind_other in Hw by exact Lm; exact Hw) P (reach_refl _ _ _)).
+        cbn [lifted app] in L. rewrite HbW in L. exact L.
+    + cbn in Lab. pose proof (not_match_of_labels l l' it Hni Lab) as Lm. rewrite Lm in Hex. injection Hex as <- <-.
+      pose proof (lift_post ops env' env (zlen A) [] c1 W st st (OIter l') st1) as L.
+      rewrite zlen_nil, Z.add_0_r in L. specialize (L ltac:(intros w Hw; unfold env' in Hw; rewrite assoc_bind_other in Hw by exact Lm; exact Hw) P (reach_refl _ _ _)).
+      cbn [lifted app eff_bwd fold_right] in L. exact L.
+    + contradiction.
+    + injection Hex as <- <-. exact I.
+    + injection Hex as <- <-. exact I.
+  - (* SLoop *)
+    apply andb_prop in Hok. destruct Hok as [Hok Hokb]. apply andb_prop in Hok. destruct Hok as [Hpos Hsg].
+    apply Z.ltb_lt in Hpos. apply negb_true_iff in Hsg.
+    cbn [compile'] in *.
+    set (e := zlen A + clen s + 1) in *.
+    set (env' := bind l (zlen A, e) env) in *.
+    assert (Hlv' : forall l', memL l' (addl l lv) = true -> exists w, assocE l' env' = Some w) by (apply dom_bind_add; exact Hlv).
+    assert (Hit' : forall l', memL l' (addl l it) = true -> exists w, assocE l' env' = Some w) by (apply dom_bind_add; exact Hit).
+    destruct (exec f s st) as [ob st1] eqn:Eb.
+    pose proof (IH s (addl l it) (addl l lv) env' st ob st1 Hokb Hlv' Hit' Eb A ([OpGoto l (zlen A)] ++ B) ops) as P.
+    specialize (P ltac:(ops_eq Hops)).
+    assert (Again : forall st2, reach ops (zlen A) st (zlen A) st2 -> exec f (SLoop l s) st2 = (o, st') ->
+              sim_post ops env (zlen A) (compile' env' (zlen A) s ++ [OpGoto l (zlen A)]) st o st').
+    { intros st2 Hr Hx.
+      assert (Hokl : ok it lv (SLoop l s) = true).
+      { cbn [ok]. rewrite Hokb, Hsg. replace (0 <? clen s) with true by (symmetry; apply Z.ltb_lt; exact Hpos). reflexivity. }
+      pose proof (IH (SLoop l s) it lv env st2 o st' Hokl Hlv Hit Hx A B ops) as Pw. cbn [compile'] in Pw.
+      specialize (Pw Hops). eapply post_prepend; [exact Hr | exact Pw]. }
+    assert (Hcne : compile' env' (zlen A) s <> []) by (apply clen_pos_ne; lia).
+    destruct ob as [|l'|l'|d| |].
+    + apply (Again st1); [|exact Hex]. cbn [sim_post sim_post_from] in P. rewrite clen_compile' in P.
+      eapply reach_trans; [exact P|].
+      rewrite <- (balanced_bwd s env' (zlen A) st1) at 2.
+      eapply (jump_to ops (A ++ compile' env' (zlen A) s) _ _ _ (zlen A - 1));
+        [ops_eq Hops | rewrite zlen_app, clen_compile'; lia | | lia].
+      eapply (goto_bwd_at ops A l (zlen A) (compile' env' (zlen A) s) B);
+        [ops_eq Hops | exact Hcne | reflexivity | rewrite clen_compile'; lia].
+    + destruct (lbl_match l l') eqn:Lm.
+      * injection Hex as <- <-. destruct (lbl_match_true _ _ Lm) as [Hl0 ->].
+        cbn [sim_post sim_post_from] in P. destruct P as [cpre [cpost [sl [e' [stg [Hc [Ha [Hr He]]]]]]]].
+        unfold env' in Ha. rewrite assoc_bind_same in Ha by exact Hl0. injection Ha as <- <-.
+        pose proof (clen_compile' s env' (zlen A)) as Hlen. rewrite Hc, zlen_app, zlen_cons in Hlen.
+        cbn [sim_post sim_post_from]. rewrite zlen_app, zlen_cons, zlen_nil, clen_compile'.
+        eapply reach_trans; [exact Hr|]. rewrite <- He.
+        eapply (jump_to ops (A ++ cpre) _ _ _ (zlen A + zlen cpre + 1 + zlen cpost));
+          [rewrite Hops, Hc; norm; reflexivity | rewrite zlen_app; lia | | lia].
+        eapply (goto_fwd_at ops (A ++ cpre) l e cpost (OpGoto l (zlen A)) B);
+          [rewrite Hops, Hc; norm; reflexivity | rewrite zlen_app; lia | unfold e; lia].
+      * injection Hex as <- <-.
+        pose proof (lift_post ops env' env (zlen A) [] (compile' env' (zlen A) s) [OpGoto l (zlen A)] st st (OLeave l') st1) as L.
+        rewrite zlen_nil, Z.add_0_r in L. refine (L _ P (reach_refl _ _ _)).
+        intros w Hw. unfold env' in Hw. rewrite assoc_bind_other in Hw by exact Lm. exact Hw.
+    + destruct (lbl_match l l') eqn:Lm.
+      * destruct (lbl_match_true _ _ Lm) as [Hl0 ->].
+        cbn [sim_post sim_post_from] in P. destruct P as [cpre [cpost [sl [e' [stg [Hc [Ha [Hr He]]]]]]]].
+        unfold env' in Ha. rewrite assoc_bind_same in Ha by exact Hl0. injection Ha as <- <-.
+        assert (Hpne : cpre <> []).
+        { intros ->. cbn [app] in Hc. exact (starts_goto_first s env' (zlen A) l (zlen A) cpost Hsg Hc). }
+        apply (Again st1); [|exact Hex].
+        eapply reach_trans; [exact Hr|]. rewrite <- He.
+        eapply (jump_to ops (A ++ cpre) _ _ _ (zlen A - 1));
+          [rewrite Hops, Hc; norm; reflexivity | rewrite zlen_app; lia | | lia].
+        eapply (goto_bwd_at ops A l (zlen A) cpre (cpost ++ [OpGoto l (zlen A)] ++ B));
+          [rewrite Hops, Hc; norm; reflexivity | exact Hpne | reflexivity | lia].
+      * injection Hex as <- <-.
+        pose proof (lift_post ops env' env (zlen A) [] (compile' env' (zlen A) s) [OpGoto l (zlen A)] st st (OIter l') st1) as L.
+        rewrite zlen_nil, Z.add_0_r in L. refine (L _ P (reach_refl _ _ _)).
+        intros w Hw. unfold env' in Hw. rewrite assoc_bind_other in Hw by exact Lm. exact Hw.
+    + contradiction.
+    + injection Hex as <- <-. exact I.
+    + injection Hex as <- <-. exact I.
+  - (* SLeave *)
+    injection Hex as <- <-. destruct (Hlv l Hok) as [[sl e] Ha].
+    cbn [sim_post sim_post_from compile']. rewrite Ha.
+    exists [], [], sl, e, st. split; [reflexivity|]. split; [reflexivity|]. split; [rewrite zlen_nil, Z.add_0_r; apply reach_refl | reflexivity].
+  - (* SIterate *)
+    injection Hex as <- <-. destruct (Hit l Hok) as [[sl e] Ha].
+    cbn [sim_post sim_post_from compile']. rewrite Ha.
+    exists [], [], sl, e, st. split; [reflexivity|]. split; [reflexivity|]. split; [rewrite zlen_nil, Z.add_0_r; apply reach_refl | reflexivity].
+Qed.
+
+Theorem sim_all : forall f, P1 f /\ P2 f.
+Proof.
+  induction f as [|f [IH1 IH2]].
+  - split.
+    + intros s it lv env st o st' _ _ _ Hex A B ops _. cbn in Hex. injection Hex as <- <-. exact I.
+    + intros l body c it lv env st o st' _ _ _ _ _ Hex A B ops _. cbn in Hex. injection Hex as <- <-. exact I.
+  - split; [apply P1_step | apply P2_step]; assumption.
 Qed.
